@@ -176,9 +176,54 @@ def gen_case(rng):
 # ---------------------------------------------------------------------------------------------------------------
 # reading a (stand-alone) data set
 
+ANT_IDS = list(c02.ANTS)
+
+
 class Ids:
+    """Value ids.  Subarrays and spectral windows: every unique value of every stand-alone part's sensor is entered as
+    a STRUCTURE (sub_key / spw_key), one entry per occurrence and without comparing them here; wire_194
+    (Model/ConcatIdent.v: Subarray.__eq__ / SpectralWindow.__eq__ as re-read from the source) decides which entries
+    are identical, and the position of the first identical entry is the value id used everywhere else."""
+
     def __init__(self):
-        self.tdesc, self.sub, self.spw, self.strs, self.floats, self.names = [], [], [], [''], [], []
+        self.tdesc, self.strs, self.floats, self.names = [], [''], [], []
+        self.raw = {'sub': [], 'spw': []}
+        self.canon = None
+
+    def struct_id(self, which, key):
+        if self.canon is None:
+            self.raw[which].append(key)
+            return len(self.raw[which]) - 1
+        if key not in self.raw[which]:
+            return -1 - Ids.gid(self.strs, 'unknown %s: %r' % (which, key))
+        return self.canon[which][self.raw[which].index(key)]
+
+    def input_wire(self, label):
+        name, pol = label[:-1], label[-1:]
+        a = ANT_IDS.index(name) if name in ANT_IDS else 100 + Ids.gid(self.strs, 'ant:' + name)
+        return [a, 'hv'.index(pol) if pol in ('h', 'v') else 9]
+
+    def sub_wire(self, key):
+        ants, cps = key
+        return [[Ids.gid(self.strs, 'antenna:' + d) for d in ants], [self.input_wire(a) + self.input_wire(b) for a, b in cps]]
+
+    def spw_wire(self, key):
+        cf, cw, nch, sb, band, prod, bw = key
+        return [Ids.gid(self.floats, cf), Ids.gid(self.floats, cw), nch, sb, Ids.gid(self.strs, 'band:' + band),
+                Ids.gid(self.strs, 'product:' + prod), Ids.gid(self.floats, bw)]
+
+    def finish(self, cs):
+        """canonical ids from the model; python's own comparison of the structures must agree with them (tie)"""
+        out = cs.ctx.model([[194, [[self.sub_wire(k) for k in self.raw['sub']], [self.spw_wire(k) for k in self.raw['spw']]]]])[0]
+        self.canon = {'sub': out[0], 'spw': out[1]}
+        for which in ('sub', 'spw'):
+            mine = [self.raw[which].index(k) for k in self.raw[which]]
+            if mine != self.canon[which]:
+                cs.disagree('stage=ident;what=%s_ids_vs_model' % which, mine, self.canon[which],
+                            'the model does not identify exactly the structurally equal %s values' % which, kind='tie')
+        if out[2] != [NAN, -1, 0, 0, -8888]:
+            cs.disagree('stage=ident;what=dummy_table_vs_model', out[2], [NAN, -1, 0, 0, -8888],
+                        'the dummy values read from dummy_sensor_getter are not nan / -1 / \'\' / False / None', kind='tie')
 
     @staticmethod
     def gid(table, key):
@@ -218,9 +263,9 @@ def obs_vid(ids, name, v):
     if name in ('Observation/target',):
         return Ids.gid(ids.tdesc, v.description)
     if name == 'Observation/subarray':
-        return Ids.gid(ids.sub, sub_key(v))
+        return ids.struct_id('sub', sub_key(v))
     if name == 'Observation/spw':
-        return Ids.gid(ids.spw, spw_key(v))
+        return ids.struct_id('spw', spw_key(v))
     if name == 'Observation/scan_state':
         return c02.STATES.index(str(v))
     if name == 'Observation/label':
@@ -377,8 +422,8 @@ def stage_open(cs, parts, twins_info, c, exc, out, names, how):
     if [int(x) for x in c._segments] != m_segs or its != m_ts:
         cs.disagree('stage=open;what=segments_vs_model', [int(x) for x in c._segments], m_segs, '_segments / timestamps differ from the model', kind='tie')
     # merged lists
-    got = dict(subs=[Ids.gid(ids.sub, sub_key(s)) for s in c.subarrays],
-               spws=[Ids.gid(ids.spw, spw_key(s)) for s in c.spectral_windows],
+    got = dict(subs=[ids.struct_id('sub', sub_key(s)) for s in c.subarrays],
+               spws=[ids.struct_id('spw', spw_key(s)) for s in c.spectral_windows],
                cat=[Ids.gid(ids.tdesc, t.description) for t in c.catalogue.targets])
     for key, sv, mv, text in (('subs', s_subs, m_subs, 'subarrays'), ('spws', s_spws, m_spws, 'spectral windows'),
                               ('cat', s_cat, m_cat, 'targets')):
@@ -691,6 +736,66 @@ class MergedObservation(c02.DataSetObservation):
             self.name_ids[k] = name_ids.setdefault(k, len(name_ids))
 
 
+class _Whole:
+    """What C02's DataSetObservation reads, for the whole after select(subarray=s, spw=w): that subarray, that
+    window, the UNSELECTED sensors."""
+
+    class _Sensors:
+        def __init__(self, c):
+            self.c = c
+            self.timestamps = c.sensor.timestamps
+
+        def __getitem__(self, name):
+            return np.asarray(self.c.sensor.get(name)[:])
+
+    def __init__(self, c, s, w):
+        self.sensor = _Whole._Sensors(c)
+        self.dump_period = c.dump_period
+        self.subarrays, self.spectral_windows = [c.subarrays[s]], [c.spectral_windows[w]]
+        self.catalogue = c.catalogue
+
+    def select(self, **kw):
+        pass
+
+
+class MultiObservation(MergedObservation):
+    """C02's view of the concatenation after select(subarray=s, spw=w); antenna ids are case-wide (ANT_IDS)."""
+
+    def __init__(self, c, name_ids, s, w):
+        super().__init__(_Whole(c, s, w), name_ids)
+        self.d, self.s, self.w = c, s, w
+        assert [a for a in ANT_IDS if a in self.spec['ants']] == self.spec['ants'], 'antennas outside the harness vocabulary / order'
+        import katpoint
+        mine = {a.name: a for a in self.kants}
+        self.spec['ants'] = list(ANT_IDS)
+        self.kants = [mine.get(n) or katpoint.Antenna('%s, -30:42:39.8, 21:26:38.0, 1086.6, 13.5, 0 0 0' % n) for n in ANT_IDS]
+
+    def fresh(self):
+        d = self.d
+        d.select()
+        d.select(subarray=self.s, spw=self.w)
+        d.select(weights='all', flags='all')
+        d._selection = {'spw': self.w, 'subarray': self.s}
+        return d
+
+
+def fz_of(spw):
+    """channel frequencies in quarter-channel units, as C02's DataSetObservation takes them"""
+    w = float(spw.channel_width) / 4
+    freqs = np.asarray(spw.channel_freqs, dtype=float)
+    fz = (freqs - (float(freqs.min()) - 8 * w)) / w
+    assert np.all(fz == np.round(fz)), 'channel frequencies are not on the quarter-channel grid'
+    return [int(x) for x in fz]
+
+
+def menv_wire(ob, ids, name_ids, twins):
+    """Model/ConcatMulti.v menv: targets by global id, half dump, half channel, channel frequencies by spw value id,
+    subarray structures by subarray value id (entries: one per raw table position)"""
+    table = env_wire(ob, ids, name_ids)[0]
+    by_key = {spw_key(tw.spectral_windows[0]): fz_of(tw.spectral_windows[0]) for tw in twins}
+    return [table, 2, 2, [by_key[k] for k in ids.raw['spw']], [ids.sub_wire(k) for k in ids.raw['sub']]]
+
+
 def env_wire(ob, ids, name_ids):
     import katpoint
     table = []
@@ -734,30 +839,67 @@ def observe_masks(d):
     return [[int(x) for x in d._time_keep], [int(x) for x in d._freq_keep], [int(x) for x in d._corrprod_keep]]
 
 
-def stage_select(cs, c, parts, twins, twins_info, twins_arrays, sorted_idx, wire_parts, names, nhist):
+def stage_select(cs, c, parts, twins, twins_info, twins_arrays, sorted_idx, wire_parts, names, nhist, sw=None):
+    """sw = None: the concatenation has one subarray and one spectral window (wire_191).  sw = (s, w): histories
+    after select(subarray=s, spw=w) on a concatenation with several (wire_193): the parts of that subarray and window
+    against the translated calls on their stand-alone twins, the other parts must be deselected entirely."""
     ctx, gen = cs.ctx, cs.gen
     ids = cs.ids
     name_ids = {}
-    ob = MergedObservation(c, name_ids)
-    env = env_wire(ob, ids, name_ids)
-    hrng = random.Random(gen['hseed'])
-    histories = [[c02.gen_call(hrng, ob) for _ in range(hrng.randint(1, 6))] for _ in range(nhist)]
-    outs = ctx.model([[191, [wire_parts, env, [c02.wire_call(cl) for cl in h]]] for h in histories])
+    tag = 'select' if sw is None else 'multi'
+    hrng = random.Random(gen['hseed'] + (0 if sw is None else 7919 * (1 + sw[0]) + 104729 * (1 + sw[1])))
+    if sw is None:
+        ob = MergedObservation(c, name_ids)
+        env = env_wire(ob, ids, name_ids)
+        histories = [[c02.gen_call(hrng, ob) for _ in range(hrng.randint(1, 6))] for _ in range(nhist)]
+        outs = ctx.model([[191, [wire_parts, env, [c02.wire_call(cl) for cl in h]]] for h in histories])
+        members = list(range(len(sorted_idx)))
+    else:
+        ob = MultiObservation(c, name_ids, sw[0], sw[1])
+        env = menv_wire(ob, ids, name_ids, twins)
+        histories = [[[x for x in c02.gen_call(hrng, ob) if x[0] not in ('spw', 'subarray')] for _ in range(hrng.randint(1, 5))]
+                     for _ in range(nhist)]
+        outs = ctx.model([[193, [wire_parts, env, sw[0], sw[1], [c02.wire_call(cl) for cl in h]]] for h in histories])
+        members, keeps = [], None
+        for out in outs:
+            if out[0] == 0:
+                members = [pi for pi, b in enumerate(out[3]) if b]
+                keeps = (out[1], out[2])
+                break
+        outs = [[o[0], o[4]] if o[0] == 0 else o for o in outs]
     cat = [Ids.gid(ids.tdesc, t.description) for t in c.catalogue.targets]
     segs = [int(x) for x in c._segments]
     so = np.cumsum([0] + [len(twins_info[i]['Observation/scan_index'][0]) for i in sorted_idx]).tolist()
     co = np.cumsum([0] + [len(twins_info[i]['Observation/compscan_index'][0]) for i in sorted_idx]).tolist()
     for hn, (h, out) in enumerate(zip(histories, outs)):
         if out[0] != 0:
-            cs.disagree('stage=select;what=model_cannot_open', 'opened', out, 'model refuses an opened concatenation', kind='tie')
+            cs.disagree('stage=%s;what=model_cannot_open' % tag, 'opened', out, 'model refuses an opened concatenation', kind='tie')
             return
         steps = out[1]
         d = ob.fresh()
+        if sw is not None and hn == 0:
+            got0 = [int(x) for x in d._time_keep]
+            if got0 != keeps[1]:
+                cs.disagree('stage=multi;keys=-;what=time_mask', got0, keeps[0],
+                            'select(subarray=s, spw=w) does not keep exactly the dumps of that subarray and spectral window',
+                            spec=keeps[1], subarray=sw[0], spw=sw[1])
+                return ob
+            if keeps[0] != keeps[1]:
+                cs.disagree('stage=multi;keys=-;what=time_mask_vs_model', got0, keeps[0], 'model differs from its spec', kind='tie',
+                            subarray=sw[0], spw=sw[1])
+                return ob
+            ctx.traces_validated += 1
+            ctx.note_case((cs.cseed, 'multi', sw), nontrivial=len(sorted_idx) >= 2,
+                          sample=dict(fmt=cs.fmt, kind=gen['kind'], subarray=sw[0], spw=sw[1], members=members, kept=got0))
+            if not members:
+                return ob       # no part has this combination: nothing is selected, nothing else to compare
         tws = []
-        for i in sorted_idx:
+        for pi, i in enumerate(sorted_idx):
             tw = twins[i]
             tw.select()
             tw.select(weights='all', flags='all')
+            if pi not in members:
+                tw.select(dumps=np.zeros(len(tw.sensor.timestamps), dtype=bool))
             tw._selection = {'spw': 0, 'subarray': 0}
             tws.append(tw)
         fw_touched = False
@@ -766,6 +908,8 @@ def stage_select(cs, c, parts, twins, twins_info, twins_arrays, sorted_idx, wire
                 break
             mo, pm, trc = steps[n]
             at = dict(history=[c02.describe_call(x) for x in h[:n + 1]], step=n, hn=hn)
+            if sw is not None:
+                at.update(subarray=sw[0], spw=sw[1])
             keys = '+'.join(sorted(k for (k, v, w, f) in call)) or '-'
             exc = None
             try:
@@ -780,7 +924,7 @@ def stage_select(cs, c, parts, twins, twins_info, twins_arrays, sorted_idx, wire
                 ctx.count('key=' + k)
             icode = 0 if exc is None else (1 if isinstance(exc, TypeError) and 'unexpected keyword' in str(exc) else 2)
             if icode != mo[0]:
-                cs.disagree('stage=select;keys=%s;what=status impl=%d model=%d' % (keys, icode, mo[0]), repr(exc) if exc else 'ok', mo[0],
+                cs.disagree('stage=' + tag + ';keys=%s;what=status impl=%d model=%d' % (keys, icode, mo[0]), repr(exc) if exc else 'ok', mo[0],
                             'implementation and model disagree on whether the call on the whole is accepted', kind='tie', **at)
                 break
             if icode == 2:
@@ -789,14 +933,14 @@ def stage_select(cs, c, parts, twins, twins_info, twins_arrays, sorted_idx, wire
                 continue
             got = observe_masks(d)
             if got != [mo[1], mo[2], mo[3]]:
-                cs.disagree('stage=select;keys=%s;what=whole_masks_vs_model' % keys, got, [mo[1], mo[2], mo[3]],
+                cs.disagree('stage=' + tag + ';keys=%s;what=whole_masks_vs_model' % keys, got, [mo[1], mo[2], mo[3]],
                             'selection masks of the whole differ from the model', kind='tie', **at)
                 break
             cur = c02.observe(ob, d)
             exp = c02.expected_from_masks(ob, mo[1], mo[2], mo[3])
             badk = [k for k in c02.PUBLIC if cur[k] != exp[k]]
             if badk:
-                cs.disagree('stage=select;keys=%s;what=public:%s' % (keys, ','.join(badk)), {k: cur[k] for k in badk},
+                cs.disagree('stage=' + tag + ';keys=%s;what=public:%s' % (keys, ','.join(badk)), {k: cur[k] for k in badk},
                             {k: exp[k] for k in badk}, 'public attributes of the whole differ from its masks', **at)
             # ---- the parts
             ok = True
@@ -806,9 +950,16 @@ def stage_select(cs, c, parts, twins, twins_info, twins_arrays, sorted_idx, wire
                 tks.append(part_masks[0])
                 seg_mask = got[0][segs[pi]:segs[pi + 1]]
                 if part_masks != [seg_mask, got[1], got[2]]:
-                    cs.disagree('stage=select;keys=%s;what=part_view' % keys, part_masks, [seg_mask, got[1], got[2]],
+                    cs.disagree('stage=' + tag + ';keys=%s;what=part_view' % keys, part_masks, [seg_mask, got[1], got[2]],
                                 'a part does not hold its slice of the global masks', part=pi, **at)
                     ok = False
+                    continue
+                if pi not in members:
+                    if any(seg_mask):
+                        cs.disagree('stage=multi;keys=%s;what=foreign_part_selected' % keys, seg_mask, None,
+                                    'dumps of a part of ANOTHER subarray / spectral window are selected',
+                                    spec=[0] * len(seg_mask), part=pi, **at)
+                        ok = False
                     continue
                 dm = None
                 for kv in trc[pi]:
@@ -824,33 +975,33 @@ def stage_select(cs, c, parts, twins, twins_info, twins_arrays, sorted_idx, wire
                 except Exception as e:      # noqa: BLE001
                     texc = e
                 if texc is not None:
-                    cs.disagree('stage=select;keys=%s;what=twin_raises' % keys, repr(texc), pm[pi],
+                    cs.disagree('stage=' + tag + ';keys=%s;what=twin_raises' % keys, repr(texc), pm[pi],
                                 'the translated call raises on the stand-alone part', part=pi, tcall=repr(tcall), **at)
                     ok = False
                     continue
                 twm = observe_masks(tw)
                 if twm != part_masks:
                     dims = ''.join(x for x, a, b in zip('TFB', twm, part_masks) if a != b)
-                    cs.disagree('stage=select;keys=%s;what=part_differs_from_standalone:%s' % (keys, dims), part_masks, pm[pi][1:],
+                    cs.disagree('stage=' + tag + ';keys=%s;what=part_differs_from_standalone:%s' % (keys, dims), part_masks, pm[pi][1:],
                                 'the whole selects in a part something else than the translated criteria select on the part alone',
                                 spec=twm, part=pi, tcall=repr(tcall), **at)
                     ok = False
                 elif pm[pi][0] != 0 or twm != pm[pi][1:]:
-                    cs.disagree('stage=select;keys=%s;what=part_vs_model' % keys, twm, pm[pi], 'part masks differ from the model', kind='tie',
+                    cs.disagree('stage=' + tag + ';keys=%s;what=part_vs_model' % keys, twm, pm[pi], 'part masks differ from the model', kind='tie',
                                 part=pi, **at)
                     ok = False
             if not ok:
                 break
             kept_parts = sum(1 for t in tks if any(t))
-            ctx.note_case((cs.cseed, hn, n), nontrivial=len(tks) >= 2 and kept_parts >= 2 and not all(got[0]),
+            ctx.note_case((cs.cseed, hn, n) if sw is None else (cs.cseed, 'multi', sw, hn, n), nontrivial=len(tks) >= 2 and kept_parts >= 2 and not all(got[0]),
                           sample=dict(fmt=cs.fmt, parts=[p['T'] for p in gen['parts']], order=gen['order'],
                                       history=at['history'], dumps=[int(x) for x in d.dumps]) if n == len(h) - 1 else None)
             # ---- data and sensors under this selection
             fw_touched = fw_touched or any(k in ('flags', 'weights') for (k, v, w, f) in call)
-            stage_data(cs, d, [twins_arrays[i] for i in sorted_idx], (tks, got[1], got[2]), hrng, 2, 'after=select',
-                       tws=tws, fw_touched=fw_touched)
+            stage_data(cs, d, [twins_arrays[i] for i in sorted_idx], (tks, got[1], got[2]), hrng, 2, 'after=' + tag,
+                       tws=[tw for pi, tw in enumerate(tws) if pi in members], fw_touched=fw_touched)
             if hrng.random() < 0.5:
-                check_selected_sensors(cs, d, [twins[i] for i in sorted_idx], tws, names, at)
+                check_selected_sensors(cs, d, [twins[i] for i in sorted_idx], [tw for pi, tw in enumerate(tws) if pi in members], names, at)
     return ob
 
 
@@ -903,7 +1054,9 @@ def multi_criteria(rng, tw, T):
     return out
 
 
-def stage_multi(cs, c, twins, arrays, sorted_idx, rng, mkeeps=None):
+def stage_multi_plain(cs, c, twins, arrays, sorted_idx, rng, mkeeps=None):
+    """format mixtures (timestamps of v3 and v4 parts are not on one dump grid: no C02 observation): select(subarray=s,
+    spw=w, **criteria that need no index translation) on the whole against the same criteria on the parts alone"""
     ctx = cs.ctx
     segs = [int(x) for x in c._segments]
     T = segs[-1]
@@ -922,12 +1075,12 @@ def stage_multi(cs, c, twins, arrays, sorted_idx, rng, mkeeps=None):
     for what, kw in (('subarray', dict(subarray=nS)), ('spw', dict(spw=nW))):
         try:
             c.select(**kw)
-            cs.disagree('stage=multi;what=%s_out_of_range_accepted' % what, 'selected', 'IndexError',
+            cs.disagree('stage=multimix;what=%s_out_of_range_accepted' % what, 'selected', 'IndexError',
                         'a %s index beyond the merged list is accepted' % what, spec='IndexError', kwargs=repr(kw))
         except IndexError:
             pass
         except Exception as e:      # noqa: BLE001
-            cs.disagree('stage=multi;what=%s_out_of_range_raises' % what, repr(e), 'IndexError',
+            cs.disagree('stage=multimix;what=%s_out_of_range_raises' % what, repr(e), 'IndexError',
                         'a %s index beyond the merged list does not raise IndexError' % what, spec='IndexError', kwargs=repr(kw))
     for s in range(nS):
         for w in range(nW):
@@ -942,7 +1095,7 @@ def stage_multi(cs, c, twins, arrays, sorted_idx, rng, mkeeps=None):
                         c.select()
                         c.select(subarray=s, spw=w, **kw)
                 except Exception as e:      # noqa: BLE001
-                    cs.disagree('stage=multi;keys=%s;what=raises' % keys, repr(e), None,
+                    cs.disagree('stage=multimix;keys=%s;what=raises' % keys, repr(e), None,
                                 'select(subarray=, spw=, ...) on the whole raised', **at)
                     continue
                 ctx.traces_validated += 1
@@ -950,26 +1103,26 @@ def stage_multi(cs, c, twins, arrays, sorted_idx, rng, mkeeps=None):
                 got = observe_masks(c)
                 if mkeeps is not None and not kw:
                     if got[0] != mkeeps[0][s][w]:
-                        cs.disagree('stage=multi;keys=-;what=time_mask', got[0], mkeeps[0][s][w],
+                        cs.disagree('stage=multimix;keys=-;what=time_mask', got[0], mkeeps[0][s][w],
                                     'select(subarray=s, spw=w) does not keep exactly the dumps of that subarray and window',
                                     spec=mkeeps[1][s][w], **at)
                         continue
                     if mkeeps[0][s][w] != mkeeps[1][s][w]:
-                        cs.disagree('stage=multi;keys=-;what=model_vs_spec', mkeeps[0][s][w], mkeeps[1][s][w],
+                        cs.disagree('stage=multimix;keys=-;what=model_vs_spec', mkeeps[0][s][w], mkeeps[1][s][w],
                                     'model differs from its spec', kind='tie', **at)
                 tks, ok = [], True
                 for pi, tw in enumerate(tws):
                     seg_mask = got[0][segs[pi]:segs[pi + 1]]
                     part_masks = observe_masks(c.datasets[pi])
                     if part_masks != [seg_mask, got[1], got[2]]:
-                        cs.disagree('stage=multi;keys=%s;what=part_view' % keys, part_masks, [seg_mask, got[1], got[2]],
+                        cs.disagree('stage=multimix;keys=%s;what=part_view' % keys, part_masks, [seg_mask, got[1], got[2]],
                                     'a part does not hold its slice of the global masks', part=pi, **at)
                         ok = False
                         break
                     if pi not in members:
                         exp_t = [0] * len(seg_mask)
                         if seg_mask != exp_t:
-                            cs.disagree('stage=multi;keys=%s;what=foreign_part_selected' % keys, seg_mask, None,
+                            cs.disagree('stage=multimix;keys=%s;what=foreign_part_selected' % keys, seg_mask, None,
                                         'dumps of a part of ANOTHER subarray / spectral window are selected', spec=exp_t, part=pi, **at)
                             ok = False
                         tks.append(seg_mask)
@@ -985,7 +1138,7 @@ def stage_multi(cs, c, twins, arrays, sorted_idx, rng, mkeeps=None):
                     tks.append(seg_mask)
                     if twm != [seg_mask, got[1], got[2]]:
                         dims = ''.join(x for x, a, b in zip('TFB', twm, [seg_mask, got[1], got[2]]) if a != b)
-                        cs.disagree('stage=multi;keys=%s;what=part_differs_from_standalone:%s' % (keys, dims), [seg_mask, got[1], got[2]], None,
+                        cs.disagree('stage=multimix;keys=%s;what=part_differs_from_standalone:%s' % (keys, dims), [seg_mask, got[1], got[2]], None,
                                     'the whole selects in a part something else than the same criteria select on the part alone',
                                     spec=twm, part=pi, **at)
                         ok = False
@@ -996,7 +1149,7 @@ def stage_multi(cs, c, twins, arrays, sorted_idx, rng, mkeeps=None):
                                inputs=list(c.inputs) == list(tw.inputs))
                     badk = sorted(k for k, v in pub.items() if not v)
                     if badk:
-                        cs.disagree('stage=multi;keys=%s;what=public:%s' % (keys, ','.join(badk)),
+                        cs.disagree('stage=multimix;keys=%s;what=public:%s' % (keys, ','.join(badk)),
                                     {k: np.asarray(getattr(c, k)).tolist() if k != 'ants' else [a.description for a in c.ants] for k in badk}, None,
                                     'the whole labels the columns / channels of a part differently from the part itself',
                                     spec={k: np.asarray(getattr(tw, k)).tolist() if k != 'ants' else [a.description for a in tw.ants] for k in badk},
@@ -1011,6 +1164,39 @@ def stage_multi(cs, c, twins, arrays, sorted_idx, rng, mkeeps=None):
         c.select()
         c.select(subarray=0, spw=0)
         for tw in tws:
+            tw.select()
+
+
+def stage_multi(cs, c, parts, twins, infos, arrays, sorted_idx, wire_parts, names, nhist):
+    """concatenations with several subarrays / spectral windows: for every pair (s, w) of the merged lists,
+    select(subarray=s, spw=w) and select histories from there (stage_select with wire_193); indices beyond the merged
+    lists must raise IndexError"""
+    ctx = cs.ctx
+    nS, nW = len(c.subarrays), len(c.spectral_windows)
+    for what, kw in (('subarray', dict(subarray=nS)), ('spw', dict(spw=nW))):
+        try:
+            c.select(**kw)
+            cs.disagree('stage=multi;what=%s_out_of_range_accepted' % what, 'selected', 'IndexError',
+                        'a %s index beyond the merged list is accepted' % what, spec='IndexError', kwargs=repr(kw))
+        except IndexError:
+            pass
+        except Exception as e:      # noqa: BLE001
+            cs.disagree('stage=multi;what=%s_out_of_range_raises' % what, repr(e), 'IndexError',
+                        'a %s index beyond the merged list does not raise IndexError' % what, spec='IndexError', kwargs=repr(kw))
+    out = ctx.model([[193, [wire_parts, [[], 2, 2, [], []], nS, 0, []]], [193, [wire_parts, [[], 2, 2, [], []], 0, nW, []]]])
+    if [o[0] for o in out] != [8, 8]:
+        cs.disagree('stage=multi;what=out_of_range_vs_model', 'IndexError', [o[0] for o in out], 'model accepts an index beyond the merged lists', kind='tie')
+    for s in range(nS):
+        for w in range(nW):
+            if cs.bad:
+                break
+            stage_select(cs, c, parts, twins, infos, arrays, sorted_idx, wire_parts, names, nhist, sw=(s, w))
+            ctx.count('multi_pairs')
+    with warnings.catch_warnings():
+        warnings.simplefilter('ignore')
+        c.select()
+        c.select(subarray=0, spw=0)
+        for tw in twins:
             tw.select()
 
 
@@ -1034,6 +1220,11 @@ def run_case(ctx, cseed, gen=None, stages=('open', 'data', 'select', 'scans', 'o
             twins = [p.fresh() for p in parts]
             infos = [read_part(d, names, ids) for d in twins]
             arrays = [read_arrays(d) for d in twins]
+            ids.finish(cs)
+            for info in infos:
+                for n, which in (('Observation/subarray', 'sub'), ('Observation/spw', 'spw')):
+                    info[n + ':raw'] = list(info[n][0])
+                    info[n][0] = [ids.canon[which][r] for r in info[n][0]]
             for i, (tw, info) in enumerate(zip(twins, infos)):
                 if info['catalogue'] != info['Observation/target'][0]:
                     cs.disagree('stage=twin;what=catalogue_is_not_target_values', info['catalogue'], info['Observation/target'][0],
@@ -1088,8 +1279,11 @@ def run_case(ctx, cseed, gen=None, stages=('open', 'data', 'select', 'scans', 'o
                 ob = stage_select(cs, c, parts, twins, infos, arrays, sorted_idx, wp_sorted, names, ctx.scale(2, 4))
             if 'scans' in stages and single and cs.bad == 0 and ob is not None:
                 stage_scans(cs, ob, drng)
-            if 'select' in stages and not single and cs.bad == 0:
-                stage_multi(cs, c, twins, arrays, sorted_idx, drng)
+            if 'select' in stages and not single and cs.bad == 0 and gen['mixed']:
+                stage_multi_plain(cs, c, twins, arrays, sorted_idx, drng)
+            if 'select' in stages and not single and cs.bad == 0 and same_shape and not gen['mixed']:
+                wp = [part_wire(infos[i], t_epoch, unit, starts, dps, names) for i in order]
+                stage_multi(cs, c, parts, twins, infos, arrays, sorted_idx, wp, names, ctx.scale(1, 2))
     finally:
         for p in parts:
             p.close()
